@@ -21,6 +21,8 @@ type Gen struct {
 	rewards  bool // this tree may call delegationRewards (trigger of finding C09-1)
 	tokenCB  bool // this tree may make one crossChain call of the hostile registered ERC-20
 	usedCB   bool
+	claimsOK, claimsPanic int // pending claims of the world already assigned to markers of this tree
+	panicky  bool // this tree may contain a keeper call that panics
 	poolUse  map[int]MarkerKind // per storage context: its pool entry is used by cancel or by increaseFee markers, not both
 }
 
@@ -126,10 +128,24 @@ func (g *Gen) fillFrame(f *Node, depth, ctx int, static bool) {
 				mk = MkRewards
 				ck = lib.CallKind(g.r.Intn(4))
 			}
+			if !static && ck == lib.CALL && g.claimsOK < nClaims && g.r.Chance(9) {
+				mk = MkExecClaim
+			}
+			if g.panicky && !static && g.claimsPanic < 2 && g.r.Chance(30) {
+				mk, ck = MkExecPanic, lib.CALL
+			}
 			if g.tokenCB && !g.usedCB && !static && g.r.Chance(40) {
 				mk, ck, g.usedCB = MkTokenCB, lib.CALL, true
 			}
 			m := &Marker{ID: g.id(), Kind: mk, Ctx: ctx}
+			switch mk {
+			case MkExecClaim:
+				m.Claim = g.w.okClaims[g.claimsOK]
+				g.claimsOK++
+			case MkExecPanic:
+				m.Claim = g.w.panicClaims[g.claimsPanic]
+				g.claimsPanic++
+			}
 			if mk == MkDelegate || mk == MkXChain || mk == MkBridgeCall || mk == MkIncreaseFee {
 				m.Bit = g.nextBit
 				g.nextBit++
@@ -139,7 +155,9 @@ func (g *Gen) fillFrame(f *Node, depth, ctx int, static bool) {
 				// these opcodes carry no value
 			}
 			caught := g.r.Chance(55)
-			if !mk.designedOK() || (ck != lib.CALL && mk != MkRewards) {
+			if mk == MkExecPanic {
+				caught = g.r.Chance(90) // the interesting case: the caller swallows the failure
+			} else if !mk.designedOK() || (ck != lib.CALL && mk != MkRewards) {
 				caught = g.r.Chance(85) // a call designed to fail is mostly tolerated by its caller, so that more transactions get through
 			}
 			f.Body = append(f.Body, &Node{Kind: NPCall, ID: m.ID, CallKind: ck, Caught: caught, M: m})
